@@ -173,6 +173,176 @@ def h_run(kind: int, per: int, steps: List[Tuple[int, int]]):
         ioloop.app_log = saved
 
 
+def _busy_advance(env, dt):
+    """The loop was BUSY for dt seconds: the clock jumps first, then ONE loop iteration moves every due timer
+    handle to the ready queue in (deadline, insertion) order and runs the ready queue FIFO - exactly what
+    asyncio's BaseEventLoop._run_once does.  Anything a handle schedules with call_soon (e.g. the first step of
+    the Task that wraps `async def _run`) therefore runs AFTER the other handles that were due in the same
+    iteration.  Cancelled handles in the ready queue are skipped (VEnv.run_ready), as in asyncio.  (VEnv.advance
+    models the idle loop: one timer at a time, queue drained in between.)"""
+    v = env.v
+    v.run_ready()
+    v.now = v.now + dt
+    for _ in range(50):
+        due = [h for h in v.timers if not h.cancelled and h.when <= v.now]
+        if not due:
+            break
+        due.sort(key=lambda h: (h.when, h.seq))
+        for h in due:
+            v.timers.remove(h)
+            v.ready.append(h)
+        v.run_ready()
+    v.timers = [h for h in v.timers if not h.cancelled]
+
+
+PRE_STEPS = ((0, 0), (1, 0), (3, 0), (1, 1))     # (idle advance, complete?) before the stop timer is armed
+
+
+def pre_race(kind: int, per: int, pre: int, off: int, adv: int, busy: bool, comp: bool) -> bool:
+    if not (0 <= kind <= 3 and 0 <= per <= 1 and 0 <= pre <= 3 and 0 <= off <= 3 and 0 <= adv <= 2):
+        return False
+    return in_shard(kind + 4 * per + 8 * (1 if busy else 0))
+
+
+@harness(
+    pre=pre_race,
+    quick=dict(timeout=150, reach_timeout=60),
+    thorough=dict(timeout=600, reach_timeout=60),
+    nshards=dict(quick=16, thorough=16),
+    reach=["stop_between_handle_and_body", "stop_first_cancels_armed_timer", "stop_while_coroutine_in_flight"],
+    units=["ioloop.PeriodicCallback.start", "ioloop.PeriodicCallback._run", "ioloop.PeriodicCallback._schedule_next",
+           "ioloop.PeriodicCallback.stop", "ioloop.IOLoop.add_timeout", "ioloop.IOLoop._run_callback",
+           "gen.convert_yielded (asyncio Task start of the `async def _run`)"],
+    stubs=["VLoop/FakeAio virtual loop (vp/env.py) + harness-local _busy_advance: one asyncio-style loop iteration in "
+           "which ALL due timer handles are queued in (deadline, insertion) order before any of them runs, so a Task "
+           "step scheduled by one handle runs after the other due handles",
+           "pc._run is wrapped on the instance to count handle firings and body starts; the real coroutine runs",
+           "a second timer calling pc.stop() is armed (after the optional pre-step) at <last periodic deadline> + off, "
+           "off in 0..3: same deadline (registered after the periodic handle), between grid points, or a later grid "
+           "point (registered BEFORE the periodic handle for that point exists)",
+           "tornado.ioloop.app_log replaced by a recorder; period 1000/2000 ms; whole-second advances"],
+    outside=["start() again after stop()", "stop() from another thread"],
+)
+def h_stop_race(kind: int, per: int, pre: int, off: int, adv: int, busy: bool, comp: bool):
+    """stop() from another timer that is due in the same loop iteration as the periodic handle (either order):
+    no invocation may START after stop() returned, no timer stays armed, never two invocations in flight."""
+    log = _Log()
+    saved = ioloop.app_log
+    ioloop.app_log = log
+    try:
+        with install() as env:
+            period = 1 if per == 0 else 2
+            ms = PERIODS_MS[0] if per == 0 else PERIODS_MS[1]
+            st = dict(in_flight=0, stopped=False, fut=None, n=0, fired=0, body=0, n_at_stop=None, arming=False)
+            armed = []
+            viol = []
+
+            def sync_cb():
+                if st["in_flight"] != 0:
+                    viol.append("invocation started while the previous one is still running")
+                if st["stopped"]:
+                    viol.append("callback invoked after stop() returned")
+                st["n"] += 1
+                if kind == 2:
+                    raise ValueError("boom")
+
+            async def coro_cb():
+                if st["in_flight"] != 0:
+                    viol.append("invocation started while the previous one is still running")
+                if st["stopped"]:
+                    viol.append("callback invoked after stop() returned")
+                st["n"] += 1
+                st["in_flight"] += 1
+                st["fut"] = env.aio.create_future()
+                try:
+                    await st["fut"]
+                finally:
+                    st["in_flight"] -= 1
+                if kind == 3:
+                    raise ValueError("boom")
+
+            pc = ioloop.PeriodicCallback(sync_cb if kind in (0, 2) else coro_cb, ms)
+            real_run = pc._run
+
+            async def body():
+                st["body"] += 1
+                await real_run()
+
+            def counted_run():
+                st["fired"] += 1
+                return body()
+
+            pc._run = counted_run
+            real_call_at = env.loop.call_at
+
+            def rec_call_at(when, callback, *a, **kw):
+                if not st["arming"]:
+                    armed.append(when)
+                return real_call_at(when, callback, *a, **kw)
+
+            env.loop.call_at = rec_call_at
+            pc.start()
+
+            def complete():
+                f = st["fut"]
+                if f is not None and not f.done():
+                    if st["stopped"]:
+                        reached("stop_while_coroutine_in_flight")
+                    f.set_result(None)
+                    env.run_ready()
+
+            p_adv, p_comp = PRE_STEPS[0] if pre == 0 else PRE_STEPS[1] if pre == 1 else PRE_STEPS[2] if pre == 2 \
+                else PRE_STEPS[3]
+            if p_adv:
+                env.advance(p_adv)
+            if p_comp:
+                complete()
+            assert not viol, viol[0] if viol else ""
+            co = 0 if off == 0 else 1 if off == 1 else 2 if off == 2 else 3
+            stop_at = armed[-1] + co
+
+            hit = []        # reach tags seen inside the callback (raised outside: _run_callback swallows exceptions)
+
+            def stopper():
+                if st["fired"] > st["body"]:
+                    hit.append("stop_between_handle_and_body")
+                if len(armed) > st["fired"] and armed[-1] == stop_at and st["in_flight"] == 0:
+                    hit.append("stop_first_cancels_armed_timer")
+                pc.stop()
+                st["stopped"] = True
+                st["n_at_stop"] = st["n"]
+
+            st["arming"] = True
+            env.loop.add_timeout(stop_at, stopper)
+            st["arming"] = False
+            ca = 1 if adv == 0 else 2 if adv == 1 else 3
+            if busy:
+                _busy_advance(env, ca)
+            else:
+                env.advance(ca)
+            assert not viol, viol[0] if viol else ""
+            for tag in hit:
+                reached(tag)
+            if comp:
+                complete()
+            env.advance(3)
+            complete()
+            env.advance(3)
+            assert not viol, viol[0] if viol else ""
+            assert st["in_flight"] == 0
+            if st["stopped"]:
+                assert st["n"] == st["n_at_stop"], "an invocation started after stop() returned"
+                assert not pc.is_running()
+                assert len(env.v.pending_timers()) == 0, "timer still armed after stop()"
+            else:
+                assert len(env.v.pending_timers()) == 2, "periodic timer and stop timer should both be pending"
+            if kind in (0, 1):
+                assert not log.errors, "unexpected error log %r" % (log.errors,)
+            assert not env.v.exc_contexts, "exception escaped to the event loop: %r" % (env.v.exc_contexts,)
+    finally:
+        ioloop.app_log = saved
+
+
 def _kernel_real(tier, seed):
     from harness import _native_c39
     return _native_c39.run_real(tier, seed)
